@@ -48,6 +48,13 @@ def build(case):
             spec["sections"].append(lastext.section("X", "~Tops", [lastext.item("TOPA", "M", "12.5", "top a")]))
         elif t == "E":
             spec["sections"].append(lastext.section("P", "~Parameter", []))
+        elif t.startswith("OL"):
+            # a long ~Other section (more lines than the header in front of ~A)
+            n = int(t[2:])
+            spec["sections"].append(lastext.section("O", "~Other", [{"t": "text", "text": "remark line %d" % i} for i in range(n)]))
+        elif t.startswith("PL"):
+            n = int(t[2:])
+            spec["sections"].append(lastext.section("P", "~Parameter", [lastext.item("P%d" % i, "", str(i), "parameter %d" % i) for i in range(n)]))
     return spec
 
 
@@ -191,7 +198,8 @@ def cases(draw, max_rows=10):
     for _ in range(nn):
         pos = draw(st.one_of(st.just(0), st.just(r), st.integers(0, r)))
         noise.append([pos, draw(noise_text)])
-    after = draw(st.sampled_from([[], [], [], ["P"], ["O"], ["X"], ["P", "O"], ["X", "P"], ["E"], ["O", "X"]]))
+    after = draw(st.sampled_from([[], [], [], ["P"], ["O"], ["X"], ["P", "O"], ["X", "P"], ["E"], ["O", "X"], ["OL"], ["PL"], ["X", "OL"]]))
+    after = [a + str(draw(st.integers(8, 40))) if a in ("OL", "PL") else a for a in after]
     d = c if draw(st.integers(0, 99)) < 85 else draw(st.integers(0, 10))
     return dict(c=c, d=d, rows=rows, noise=noise, after=after, nl=draw(st.sampled_from(["\n", "\n", "\r\n"])),
                 final_nl=draw(st.sampled_from([True, True, False])),
@@ -207,7 +215,7 @@ def small_grid(tier):
             rows = [dict(toks=["%d.%d" % (i + 1, j + 1) for j in range(c)], lead="", seps=[" "] * (c - 1), trail="")
                     for i in range(r)]
             for noise in ([], [[0, ""]], [[r, ""]], [[r, "# c"]], [[0, "# c"]], [[r, ""], [r, ""]], [[1, ""]] if r > 1 else [[0, " "]]):
-                for after in ([], ["P"], ["O"], ["X"], ["E"]):
+                for after in ([], ["P"], ["O"], ["X"], ["E"], ["OL%d" % (11 + r)], ["PL%d" % (10 + 2 * r)], ["OL%d" % (10 + 3 * c)]):
                     for nl in ("\n", "\r\n"):
                         for fnl in (True, False):
                             yield dict(c=c, d=c, rows=rows, noise=noise, after=after, nl=nl, final_nl=fnl, atitle="~A")
